@@ -405,6 +405,22 @@ def sheet_chunk(jobs: list) -> list:
     res, live = [], []
     for jid, shape, site, tname, parity in jobs:
         rec = {"id": jid, "site": site, "type": tname, "data": shape, "raised": "", "parity": parity}
+        if tname.startswith("corpus:"):                    # a PowerPoint-authored chart: load its deck, replace_data, save, read back
+            res.append(rec)
+            live.append(None)
+            try:
+                path, n = tname[7:].rsplit("#", 1)
+                cprs = pptx.Presentation(path)
+                charts = [sh.chart for sl in cprs.slides for sh in sl.shapes if getattr(sh, "has_chart", False) and sh.has_chart]
+                charts[int(n)].replace_data(build_data(shape, parity))
+                cbuf = io.BytesIO()
+                cprs.save(cbuf)
+                got = charts_in_deck(cbuf.getvalue())[int(n)]
+                rec["obs"] = project_sheet(got[2], got[3])
+            except Exception as e:
+                rec["raised"] = "%s: %s" % (type(e).__name__, str(e)[:120])
+                rec["obs"] = {"date1904": False, "wbDate1904": False, "grid": [], "sers": [], "hasWorkbook": False}
+            continue
         try:
             slide = prs.slides.add_slide(lay)
             first = PRE[shape["kind"]] if site == "ReplaceData" else shape
@@ -422,6 +438,8 @@ def sheet_chunk(jobs: list) -> list:
     for si, cname, croot, xl in charts_in_deck(buf.getvalue()):
         by_slide.setdefault(si, []).append((croot, xl))
     for rec, si in zip(res, live):
+        if "obs" in rec:
+            continue
         got = by_slide.get(si) if si is not None else None
         if got and len(got) == 1 and not rec["raised"]:
             rec["obs"] = project_sheet(got[0][0], got[0][1])
